@@ -408,6 +408,27 @@ impl<'a> Planner<'a> {
 	}
 }
 
+impl<'a> Planner<'a> {
+	/// Plan a transaction spending one fresh external coin into the output `forced` (an output some other
+	/// transaction of the pool also creates: same value, same key, hence the same commitment) plus change.
+	fn add_recreating(&mut self, comp: usize, role: &'static str, forced: &Coin) -> Vec<Coin> {
+		let k_in = self.key();
+		let fee = self.unit * (1 + self.p.below(2));
+		let change = 1_000_000_000 + self.p.below(1_000_000_000);
+		let input = self.w.coin(forced.value + fee + change, &k_in, false);
+		let k_change = self.key();
+		let outs = vec![(forced.value, forced.key_id.clone()), (change, k_change)];
+		let (feat, kv) = self.features(fee);
+		let (off, off_tag) = if self.p.chance(3, 10) { (OffSpec::Zero, "z") } else { (OffSpec::Random, "r") };
+		let coins: Vec<Coin> = outs.iter().map(|(v, k)| self.w.coin(*v, k, false)).collect();
+		let seed = self.p.next_u64();
+		let idx = self.specs.len();
+		self.specs.push(Spec { ins: vec![input], outs, feat, kv, off, off_tag, comp, role, v2: false, fee, seed });
+		self.comps[comp].push(idx);
+		coins
+	}
+}
+
 /// Transaction with a caller-chosen offset: excess = blind_sum - offset.
 fn tx_with_offset(
 	w: &World,
@@ -565,6 +586,18 @@ fn build_pool(
 		for (i, coin) in a.iter().enumerate() {
 			let role = ["fan.B", "fan.C", "fan.E"][i];
 			pl.add(c, role, vec![coin.clone()], 1, None);
+		}
+	}
+	// an output created, spent and created again (same value and key => same commitment), and spent again:
+	// the commitment legitimately occurs twice on one side of the aggregate and exactly the matched pairs go
+	for again in 0..2 {
+		let c = pl.new_comp();
+		let ins = pl.exts(1);
+		let a = pl.add(c, "re.A", ins, 2, None);
+		pl.add(c, "re.B", vec![a[0].clone()], 1, None);
+		let r = pl.add_recreating(c, "re.R", &a[0]);
+		if again == 1 {
+			pl.add(c, "re.S", vec![r[0].clone()], 1, None);
 		}
 	}
 	// complementary offsets k and n - k (two independent singles)
@@ -922,9 +955,36 @@ fn try_aggregate(txs: &[Transaction]) -> Result<Transaction, AggErr> {
 
 /// Every refused aggregation of valid, distinct, non-conflicting transactions is the same refutation,
 /// wherever it happens (operand, permutation, grouping, subset): one signature per (error, offset class).
+/// After removing the matched spend pairs, does a commitment remain more than once among the inputs or
+/// among the outputs of these operands? Then no valid transaction is their aggregate (two of them create, or
+/// spend, the same output without the other side in between) and `aggregate` has to refuse.
+fn aggregate_would_hold_a_duplicate(txs: &[&Transaction]) -> bool {
+	let mut n_in: HashMap<C33, i64> = HashMap::new();
+	let mut n_out: HashMap<C33, i64> = HashMap::new();
+	for t in txs {
+		for c in input_commits(t) {
+			*n_in.entry(c).or_insert(0) += 1;
+		}
+		for o in t.outputs() {
+			*n_out.entry(o.commitment().0).or_insert(0) += 1;
+		}
+	}
+	let keys: HashSet<C33> = n_in.keys().chain(n_out.keys()).cloned().collect();
+	keys.iter().any(|c| {
+		let (i, o) = (*n_in.get(c).unwrap_or(&0), *n_out.get(c).unwrap_or(&0));
+		let m = i.min(o);
+		i - m > 1 || o - m > 1
+	})
+}
+
 fn report_agg_err(acc: &mut Acc, e: &AggErr, offc: &str, stage: &str, replay: Value) {
-	acc.count("aggregate_errors", 1);
 	let refs: Vec<&Transaction> = e.operands.iter().collect();
+	if aggregate_would_hold_a_duplicate(&refs) {
+		// e.g. the creator and the re-creator of an output grouped without the spender in between
+		acc.count("aggregate_refused.operands_would_leave_a_duplicate_commitment", 1);
+		return;
+	}
+	acc.count("aggregate_errors", 1);
 	let by_hand = hand_aggregate(&refs);
 	let (w, _) = weighting_for(&by_hand);
 	let hand_ok = by_hand.validate(w);
